@@ -198,6 +198,36 @@ let do_gen fields =
        let ms = List.sort compare ms in
        emit "S" (Printf.sprintf "gen root=%s chk=%s moves=%s" (proj_of p) (chk_spec p) (String.concat "," ms)))
 
+let king_pts (b : boardState) = pt b.white_king_location ^ "/" ^ pt b.black_king_location
+
+let do_replay fields =
+  let fen = List.nth fields 1 in
+  let chain = if List.length fields > 2 then split_words (List.nth fields 2) else [] in
+  match from_fen zt (str_of_string fen) with
+  | Err _ | Panic _ -> emit "M" "replay badfen"; emit "S" "replay badfen"
+  | Ok root ->
+    let rec follow cur = function
+      | [] -> Stdlib.Ok cur
+      | mv :: rest ->
+        (match List.find_opt (fun s -> model_uci s = mv) (generate_moves zt cur AllMoves) with
+         | Some s -> follow s rest
+         | None -> Stdlib.Error mv) in
+    (match follow root chain with
+     | Stdlib.Error mv -> emit "M" ("replay nochain:" ^ mv); emit "S" ("replay nochain:" ^ mv)
+     | Stdlib.Ok cur ->
+       let succ = generate_moves zt cur AllMoves in
+       let bad = List.filter_map (fun s ->
+           match best_move_text s with
+           | Ok text ->
+             (match make_move zt cur text with
+              | Ok b2 ->
+                if proj_of (abs0 b2) = proj_of (abs0 s) && hex_of_n b2.zobrist_key = hex_of_n s.zobrist_key && king_pts b2 = king_pts s then None
+                else Some (string_of_str text ^ ":" ^ proj_nokey (abs0 b2) ^ "#" ^ hex_of_n b2.zobrist_key ^ "!=" ^ proj_nokey (abs0 s) ^ "#" ^ hex_of_n s.zobrist_key)
+              | _ -> Some (string_of_str text ^ ":PANIC"))
+           | _ -> Some "notext") succ in
+       emit "M" (Printf.sprintf "replay n=%d bad=%s" (List.length succ) (String.concat "," bad));
+       emit "S" "replay bad=")
+
 let do_fen fields =
   let s = str_of_hexlist (List.nth fields 1) in
   match from_fen zt s with
@@ -246,6 +276,66 @@ let do_pos fields =
         emit "S" (Printf.sprintf "pos Ok %s counts=%s" (proj_of p) (String.concat "," (List.map string_of_int counts))))
    | _ -> emit "S" "pos Panic")
 
+(* ---------- generation of cases from the specification (never from the model of the code) *)
+let rng = ref 12345
+let next_rand () = rng := (!rng * 1103515245 + 12345) land 0x3fffffff; (!rng lsr 8)
+let fen_of_pos p = string_of_str (print_fen p Z0 (z_of_int 1))
+
+let move_tags (p : position) (m : move) : string list =
+  let t = ref [] in
+  if is_capture p m then t := "capture" :: !t;
+  (match m.mpromo with Some _ -> t := "promo" :: !t | None -> ());
+  (match pget p.pos_pl m.mfrom with
+   | Some pc ->
+     (match pc.pkind with
+      | King -> if abs (int_of_z (fst m.mto) - int_of_z (fst m.mfrom)) = 2 then t := "castle" :: !t else t := "kingmove" :: !t
+      | Rook -> t := "rookmove" :: !t
+      | Pawn ->
+        if abs (int_of_z (snd m.mto) - int_of_z (snd m.mfrom)) = 2 then t := "double" :: !t;
+        if is_capture p m && pget p.pos_pl m.mto = None then t := "ep" :: !t
+      | _ -> ())
+   | None -> ());
+  !t
+
+let weight tags =
+  List.fold_left (fun w t -> w + (match t with
+      | "ep" -> 30 | "castle" -> 12 | "promo" -> 8 | "capture" -> 3 | "double" -> 3 | "rookmove" -> 1 | "kingmove" -> 1 | _ -> 0)) 1 tags
+
+let do_playout fields =
+  let fen = List.nth fields 1 in
+  rng := (int_of_string (List.nth fields 2)) land 0x3fffffff;
+  let n = int_of_string (List.nth fields 3) in
+  let only_caps = (List.length fields > 4 && List.nth fields 4 = "C") in
+  match from_fen zt (str_of_string fen) with
+  | Ok b when legal_position (abs0 b) ->
+    let p0 = abs0 b in
+    let rec go p moves k last_tags =
+      let ms = legal_moves p in
+      let tags = (if ms = [] then ["terminal"] else []) @ (if in_check p.pos_pl p.pos_stm then ["incheck"] else []) @ last_tags in
+      emit "G" (Printf.sprintf "%s\t%s\t%s" (fen_of_pos p) (String.concat " " (List.rev moves)) (String.concat "," tags));
+      let ms = if only_caps then List.filter (is_capture p) ms else ms in
+      if k > 0 && ms <> [] then begin
+        let tagged = List.map (fun m -> (m, move_tags p m)) ms in
+        let total = List.fold_left (fun a (_, t) -> a + weight t) 0 tagged in
+        let r = ref ((next_rand ()) mod total) in
+        let chosen = ref (List.hd tagged) in
+        (try List.iter (fun (m, t) -> let w = weight t in if !r < w then (chosen := (m, t); raise Exit) else r := !r - w) tagged
+         with Exit -> ());
+        let (m, t) = !chosen in
+        go (apply p m) (move_text m :: moves) (k - 1) t
+      end in
+    go p0 [] n []
+  | _ -> emit "G" "illegal-root"
+
+let do_legal fields =
+  match from_fen zt (str_of_string (List.nth fields 1)) with
+  | Ok b ->
+    let p = abs0 b in
+    if legal_position p then
+      emit "L" (Printf.sprintf "1 %d %s" (List.length (legal_moves p)) (if in_check p.pos_pl p.pos_stm then "check" else "quiet"))
+    else emit "L" "0"
+  | _ -> emit "L" "0"
+
 let () =
   (try
      while true do
@@ -256,9 +346,12 @@ let () =
             (match List.hd fields with
              | "gen" -> do_gen fields
              | "fen" -> do_fen fields
+             | "replay" -> do_replay fields
              | "eval" -> do_eval fields
              | "chk" -> do_chk fields
              | "pos" -> do_pos fields
+             | "playout" -> do_playout fields
+             | "legal" -> do_legal fields
              | _ -> Driver_ext.dispatch zt emit fields)
           with e -> emit "M" ("DRIVER-EXCEPTION " ^ Printexc.to_string e); emit "S" "DRIVER-EXCEPTION");
          if Buffer.length out > 60000 then (print_string (Buffer.contents out); Buffer.clear out)
